@@ -1,5 +1,6 @@
 """C15 — lists, notes and tables of contents reflect exactly the calls made (spec module Lists)."""
 import copy
+import os
 from concurrent.futures import ThreadPoolExecutor
 
 MANIFEST = dict(
@@ -46,7 +47,7 @@ BASE = dict(
     NTexts={"note a"}, Runs={"para"}, Refs={"bogus"},
     CfgFmts={"lowerRoman"}, CfgStarts={0},
     Apis={"para"}, HLvls={1}, HTexts={"Alpha"}, Styles={"Title"},
-    MLs={3}, TSLvls={1}, MaxK=2, Depth=0,
+    MLs={3}, TSLvls={1}, Files={False}, MaxK=2, Depth=0,
     MaxItems=2, MaxNotes=2, MaxHeads=2, MaxTocs=2, MaxAlloc=3,
 )
 
@@ -112,6 +113,8 @@ def families(q):
                                    Refs={"other"}, MaxK=1)))
         fam.append(("toc", dict(OpNames=TOC_OPS - {"SetTOCStyle", "BuildTOCSDT"} | {"Reopen"}, Depth=3, HLvls={1, 4},
                                 HTexts={"Alpha", ""}, Styles={"Heading2"}, MLs={1, 3}, MaxK=1)))
+        fam.append(("tocnote", dict(OpNames={"AddHeading", "AddFootnoteToRun", "GenerateTOC", "UpdateTOC", "Reopen"}, Depth=3,
+                                    Runs={"heading"}, Files={True}, HLvls={1}, MLs={3})))
     else:
         # every PAIR of list calls over every type / symbol / level class / start (cache-key collisions of any two requests)
         fam.append(("lists", dict(OpNames=LIST_OPS | {"Reopen"}, Depth=2, Types=ALLTYPES, Syms=ALLSYMS | {"custom"},
@@ -138,6 +141,10 @@ def families(q):
                                 HTexts={"Alpha", ""}, Styles={"Heading2", "Title"}, MLs={0, 1, 3, 9}, TSLvls={0, 1}, MaxK=2)))
         fam.append(("toc4", dict(OpNames={"AddHeading", "RemoveHeading", "GenerateTOC", "AutoGenerateTOC", "UpdateTOC", "Reopen"},
                                  Depth=4, HLvls={1, 4}, HTexts={"Alpha", ""}, MLs={3}, MaxK=1)))
+        # the reference marker of a note put into a heading's run changes the heading text the TOC has to list
+        fam.append(("tocnote", dict(OpNames={"AddHeading", "AddFootnoteToRun", "RemoveFootnote", "GenerateTOC", "AutoGenerateTOC",
+                                             "UpdateTOC", "Reopen"}, Depth=4, Runs={"heading"}, Files={False, True}, HLvls={1, 4},
+                                    HTexts={"Alpha"}, MLs={3}, Refs={"gone"}, MaxK=1)))
     return fam
 
 
@@ -173,14 +180,14 @@ def vlib_machinery(msg):
     return vlib.Machinery(msg)
 
 
-SIM_FULL = dict(Types={"bullet", "decimal", "upperLetter", "lowerRoman"}, Syms={"dot", "square", "custom"}, NumSyms={"empty"},
+SIM_FULL = dict(Files={False, True}, Types={"bullet", "decimal", "upperLetter", "lowerRoman"}, Syms={"dot", "square", "custom"}, NumSyms={"empty"},
                 LvlCodes={0, 1, 5, 9, 10}, Starts={0, 1, 5}, MLTypes={"bullet", "upperRoman"}, MLStarts={1, 5},
-                MLLen=2, NTexts={"note a", "<&>"}, Runs={"para", "detached", "foreign"},
+                MLLen=2, NTexts={"note a", "<&>"}, Runs={"para", "detached", "foreign", "heading"},
                 Refs={"gone", "other", "bogus", "sep", "empty"}, CfgFmts={"lowerRoman"}, CfgStarts={0, 5},
                 Apis={"para", "parabm", "tocbm"}, HLvls={1, 2, 3, 4, 9}, HTexts={"Alpha", "", "A <&> B"},
                 Styles={"Heading2", "Title"}, MLs={0, 1, 2, 3, 9}, TSLvls={0, 1, 10}, MaxK=3)
-SIM_QUICK = dict(Types={"bullet", "decimal", "upperLetter"}, Syms={"dot", "square"}, LvlCodes={1, 4, 10}, Starts={1, 5},
-                 MLStarts={1, 5}, MLLen=1, NTexts={"note a", "<&>"}, Runs={"para", "foreign"}, Refs={"gone", "other", "bogus"},
+SIM_QUICK = dict(Files={False, True}, Types={"bullet", "decimal", "upperLetter"}, Syms={"dot", "square"}, LvlCodes={1, 4, 10}, Starts={1, 5},
+                 MLStarts={1, 5}, MLLen=1, NTexts={"note a", "<&>"}, Runs={"para", "foreign", "heading"}, Refs={"gone", "other", "bogus"},
                  CfgStarts={5}, Apis={"para", "parabm", "tocbm"}, HLvls={1, 2, 4}, HTexts={"Alpha", ""},
                  Styles={"Heading2", "Title"}, MLs={1, 3, 9}, TSLvls={0, 1}, MaxK=2)
 SIM_PER_TRACE = 4    # TLC prints every successor of the last state of a random walk: keep a few of these siblings per walk
@@ -228,6 +235,8 @@ def pipeline(ctx, replay_case=None):
     if replay_case is not None:
         judge(ctx, [replay_case], "replay")
         return ctx.finish(LEVEL, RULE)
+    # many TLC processes run side by side: do not let each of them reserve a quarter of the machine's memory
+    os.environ.setdefault("JAVA_TOOL_OPTIONS", "-Xss256m -Xmx6g")
     ctx.build_harness()
     pool, mcs = model_checks(ctx, MC_QUICK if q else MC_THOROUGH, 2 if q else 4)
     jobs, d, simkw = plan(q)
